@@ -82,6 +82,7 @@ type DB struct {
 	compPerErrC      chan error
 	compErrSetC      chan error
 	compWriteLocking bool
+	compLockedC      chan struct{} // Closed by compactionError when it exits on Close while holding the write lock.
 	compReadOnly     uint32 // Set once SetReadOnly succeeded, read by table compaction.
 	compStats        cStats
 	memdbMaxLevel    int // For testing.
@@ -117,6 +118,7 @@ func openDB(s *session) (*DB, error) {
 		compErrC:    make(chan error),
 		compPerErrC: make(chan error),
 		compErrSetC: make(chan error),
+		compLockedC: make(chan struct{}),
 		// Close
 		closeC: make(chan struct{}),
 	}
@@ -1232,8 +1234,13 @@ func (db *DB) Close() error {
 		tr.Discard()
 	}
 
-	// Acquire writer lock.
-	db.writeLockC <- struct{}{}
+	// Acquire writer lock. In read-only mode the compaction error goroutine
+	// holds it and keeps it on our behalf (see compactionError): if it gave
+	// the lock back, a writer waiting for it could take it before us.
+	select {
+	case db.writeLockC <- struct{}{}:
+	case <-db.compLockedC:
+	}
 
 	// Wait for all gorotines to exit.
 	db.closeW.Wait()
